@@ -199,6 +199,8 @@ class ProfilingDatasetC(ClassContract):
                      Variant('str', params={'item': 'key'}, requires=lambda S: self_view(S).keys,
                              post=_getitem_post('str'), hooks=_hooks(), props=('C20',))],
         __len__=[Variant('len', post=post_len(self_view), props=('C20',))],
+        indexable=[Variant('flag', post=post_bool_property(lambda S: self_view(S).idx), props=('C20', 'C02'),
+                           inline=('indexable',))],
         keys=[Variant('keys', post=post_keys(self_view), requires=lambda S: self_view(S).keys, props=('C20',),
                       inline=('keys',))],
         copy=copy_variants(),
